@@ -241,20 +241,17 @@ func randomTokens(r *hv.Rng) hclwrite.Tokens {
 }
 
 // spaceTable dumps spaceAfterToken exhaustively over the given type codes, with
-// the subject's bytes being "in" or not. Order: subject, before, after, inflag.
+// four byte variants per triple (subject "x"/"in" with after "z"; after "e5" / "E0x": the
+// exponent-like identifier of fix 7415f41). Order: subject, before, after, variant.
 func spaceTable(types []int) string {
 	var sb strings.Builder
 	for _, s := range types {
 		for _, b := range types {
 			for _, a := range types {
-				for _, in := range []bool{false, true} {
-					sbytes := []byte("x")
-					if in {
-						sbytes = []byte("in")
-					}
-					st := &hclwrite.Token{Type: hclsyntax.TokenType(s), Bytes: sbytes}
+				for _, v := range [][2]string{{"x", "z"}, {"in", "z"}, {"x", "e5"}, {"in", "E0x"}, {"x", "e-5"}, {"x", "e-x"}} {
+					st := &hclwrite.Token{Type: hclsyntax.TokenType(s), Bytes: []byte(v[0])}
 					bt := &hclwrite.Token{Type: hclsyntax.TokenType(b), Bytes: []byte("y")}
-					at := &hclwrite.Token{Type: hclsyntax.TokenType(a), Bytes: []byte("z")}
+					at := &hclwrite.Token{Type: hclsyntax.TokenType(a), Bytes: []byte(v[1])}
 					if hclwrite.VerifSpaceAfterToken(st, bt, at) {
 						sb.WriteByte('1')
 					} else {
@@ -271,6 +268,7 @@ var c09Corpus = []string{
 	"a   =     1\nbb=-1\n",
 	"x = 1 .5\n",
 	"x = a.0 .5\n",
+	"x = 1 .e5\n", "x = 1 .e-5\n", "x = 1 .E-5z\n", "x = a.0 .e-1\n", "x = 1 .e-\n", "x = 1 .e-x\n", "x = a.0 .e1\n", "x = 1 .E5x\n", "x = 1 .e\n", "x = 1 .ee5\n", "x = a.0.b\n",
 	"a = [for x in [foo]: x]\n",
 	"a = foo( 1 , 2 ... )\n",
 	"a = b  -  1\nc = ( - 1 )\nd = !  true\n",
